@@ -211,6 +211,14 @@ func runPromGauge(c *core.Ctx) {
 				}
 			}
 		})
+		if !good {
+			if ok, d := gaugeBalance(c, fn, msgType, e, subscriptionGauge(en), +1); ok {
+				good = true
+				_ = d
+			} else if d != "" {
+				detail += "; path by path: " + d
+			}
+		}
 		c.Check(good, nil, fname(c, fn), "inc["+msgType+"]", P.Pos(fn.Pos()), "REQ of a not-yet-open subscription id: entry inserted and gauge incremented together", "subscription gauge increment is not tied to the insertion of a new (session, subscription) entry: "+detail+" — a repeated REQ of the same id counts twice")
 	}
 	checkDec := func(fn *ssa.Function, msgType string) {
@@ -252,6 +260,14 @@ func runPromGauge(c *core.Ctx) {
 				}
 			}
 		})
+		if !good {
+			if ok, d := gaugeBalance(c, fn, msgType, e, subscriptionGauge(en), -1); ok {
+				good = true
+				_ = d
+			} else if d != "" {
+				detail += "; path by path: " + d
+			}
+		}
 		c.Check(good, nil, fname(c, fn), "dec["+msgType+"]", P.Pos(fn.Pos()), msgType+" of an open subscription: entry removed and gauge decremented together", "subscription gauge decrement is not tied to the removal of a present entry: "+detail+" — CLOSE of an unknown id (or a second CLOSED) drives the gauge negative")
 	}
 	checkInc(cm, "ClientReqMsg")
@@ -489,4 +505,132 @@ func promNorm(p string) string {
 	p = reSetReqID1.ReplaceAllString(p, "SETREQID(")
 	p = reSetReqID2.ReplaceAllString(p, "SETREQID($1,")
 	return p
+}
+
+// gaugeBalance decides the subscription gauge path by path (for spellings the block-local
+// reading above does not cover: the insert after the test instead of next to the Inc, EOSE
+// and CLOSED sharing one tail behind per-clause variables, a second gauge in the same
+// function). On every feasible path of fn that handles a message of msgType:
+//
+//	presence before: what the path's comma-ok test of the entry e says (unknown if none);
+//	presence after:  the last MapUpdate (present) / delete (absent) of e on the path;
+//	Δ gauge:         Inc − Dec of the subscription gauge field on the path;
+//
+// and Δ gauge must equal after − before; an unknown "before" allows neither an update nor
+// a gauge operation. wantDelta: some path must change the gauge by this much.
+func gaugeBalance(c *core.Ctx, fn *ssa.Function, msgType, e, gaugePath string, wantDelta int) (bool, string) {
+	msgP := "p:" + fn.Params[2].Name()
+	nPaths, nWant := 0, 0
+	for _, rb := range an.ReturnBlocks(fn) {
+		paths, ok := an.PathsTo(fn, rb, 4096)
+		if !ok {
+			return false, "too many paths"
+		}
+		c.CountPaths(len(paths))
+		for _, p := range paths {
+			if !an.Feasible(p) {
+				continue
+			}
+			// the message type handled on this path
+			typ := ""
+			for _, cd := range p.Conds() {
+				cd = an.NormCond(cd)
+				ex, ok := cd.V.(*ssa.Extract)
+				if !ok || ex.Index != 1 || !cd.True {
+					continue
+				}
+				if ta, ok := ex.Tuple.(*ssa.TypeAssert); ok && an.PathOf(ta.X) == msgP {
+					typ = typeNameOf(ta.AssertedType)
+				}
+			}
+			if typ != msgType {
+				continue
+			}
+			nPaths++
+			entryOf := func(m, k ssa.Value) string {
+				return promNorm(an.PathOf(an.PhiOnPath(m, p))) + "[" + promNorm(an.PathOf(an.PhiOnPath(k, p))) + "]"
+			}
+			before := -1
+			for _, cd := range p.Conds() {
+				cd = an.NormCond(cd)
+				ex, ok := cd.V.(*ssa.Extract)
+				if !ok || ex.Index != 1 {
+					continue
+				}
+				lk, ok := ex.Tuple.(*ssa.Lookup)
+				if !ok || !lk.CommaOk || entryOf(lk.X, lk.Index) != e {
+					continue
+				}
+				if cd.True {
+					before = 1
+				} else {
+					before = 0
+				}
+			}
+			after, delta := before, 0
+			touched := false
+			for _, b := range p {
+				for _, in := range b.Instrs {
+					switch x := in.(type) {
+					case *ssa.MapUpdate:
+						if entryOf(x.Map, x.Key) == e {
+							after, touched = 1, true
+						}
+					case *ssa.Call:
+						if bi, ok := x.Call.Value.(*ssa.Builtin); ok && bi.Name() == "delete" && len(x.Call.Args) == 2 && entryOf(x.Call.Args[0], x.Call.Args[1]) == e {
+							after, touched = 0, true
+						}
+						if x.Call.IsInvoke() && strings.HasSuffix(types.TypeString(x.Call.Value.Type(), nil), "prometheus.Gauge") && promPath(x.Call.Value) == gaugePath {
+							switch x.Call.Method.Name() {
+							case "Inc":
+								delta++
+							case "Dec":
+								delta--
+							case "Add", "Sub", "Set":
+								return false, "the subscription gauge is changed by " + x.Call.Method.Name() + " at " + c.P.Pos(x.Pos())
+							}
+						}
+					}
+				}
+			}
+			pos := c.P.Pos(an.LastInstr(rb).Pos())
+			if before < 0 {
+				if touched || delta != 0 {
+					return false, fmt.Sprintf("a path to %s changes the entry or the gauge without having tested whether the entry exists", pos)
+				}
+				continue
+			}
+			if delta != after-before {
+				return false, fmt.Sprintf("on a path to %s the entry goes %s → %s but the gauge changes by %+d", pos, presence(before), presence(after), delta)
+			}
+			if delta == wantDelta {
+				nWant++
+			}
+		}
+	}
+	if nPaths == 0 {
+		return false, "no path handles " + msgType
+	}
+	if nWant == 0 {
+		return false, fmt.Sprintf("no path of %s changes the gauge by %+d", msgType, wantDelta)
+	}
+	return true, fmt.Sprintf("on each of the %d feasible paths handling %s the gauge changes exactly as the entry's presence does (absent→present: +1, present→absent: −1, otherwise 0)", nPaths, msgType)
+}
+
+func presence(k int) string {
+	if k == 1 {
+		return "present"
+	}
+	return "absent"
+}
+
+// subscriptionGauge: the gauge field that counts open subscriptions — the one session end
+// subtracts the size of the session's set from.
+func subscriptionGauge(en *ssa.Function) string {
+	for _, call := range gaugeCalls(en, "Sub") {
+		if strings.Contains(promPath(call.Call.Args[0]), "len(recv.m[") {
+			return promPath(call.Call.Value)
+		}
+	}
+	return ""
 }
